@@ -6,21 +6,14 @@ Local Open Scope Z_scope.
 
 Definition U : Z := stake_unit.
 
-(* F1: a revert across an UpdateDelegation leaves the restored validator with
-   another delegation list (shared backing array, cap 4 / len 3) *)
-Definition w_f1 : list op :=
-  [OFund 1; OFund 3; OFund 4; OFund 5; OCreate 100 1 1 (10 * U) 10;
-   ODelegate 3 100 (3 * U); ODelegate 4 100 (4 * U); ODelegate 5 100 (5 * U);
-   OSnapshot; ODelegate 1 100 U; ORevert 0].
-(* F2: RemoveValidator decrements the statistics, IntermediateRoot decrements them again *)
+(* F2: RemoveValidator leaves the removed validator in the index (and, w_f2b,
+   IntermediateRoot decrements the statistics a second time) *)
 Definition w_f2 : list op :=
-  [OCreate 100 1 1 (10 * U) 10; OCreate 200 1 1 (20 * U) 20; ORoot; ORemove 100; ORoot].
+  [OCreate 100 1 1 (10 * U) 10; OCreate 200 1 1 (20 * U) 20; ORoot; ORemove 100].
+Definition w_f2b : list op := w_f2 ++ [ORoot].
 (* F3: GetValidatorsForUpdate reloads the persisted index and forgets a new validator *)
 Definition w_f3 : list op :=
   [OCreate 100 1 1 (10 * U) 10; ORoot; OCreate 200 2 1 (20 * U) 20; OList].
-(* F4: Copy drops the uncommitted delegation list of an account *)
-Definition w_f4 : list op :=
-  [OFund 1; OCreate 100 1 1 (10 * U) 10; ODelegate 1 100 (3 * U); OCopy].
 (* F5: a delegation from an address without account is recorded on the validator only *)
 Definition w_f5 : list op :=
   [OCreate 100 1 1 (10 * U) 10; ODelegate 1 100 (3 * U)].
@@ -36,12 +29,26 @@ Definition refutes (w : list op) : Prop :=
   safe (removelast w) = true /\ safe w = false /\
   exists s, run init w = Some s /\ inv_all s = false.
 
-Lemma refuted_f1 : refutes w_f1. Proof. split; [|split]; [vm_compute; reflexivity..|]. eexists. split; vm_compute; reflexivity. Qed.
-Lemma refuted_f2 : refutes w_f2. Proof. split; [|split]; [vm_compute; reflexivity..|]. eexists. split; vm_compute; reflexivity. Qed.
-Lemma refuted_f3 : refutes w_f3. Proof. split; [|split]; [vm_compute; reflexivity..|]. eexists. split; vm_compute; reflexivity. Qed.
-Lemma refuted_f4 : refutes w_f4. Proof. split; [|split]; [vm_compute; reflexivity..|]. eexists. split; vm_compute; reflexivity. Qed.
-Lemma refuted_f5 : refutes w_f5. Proof. split; [|split]; [vm_compute; reflexivity..|]. eexists. split; vm_compute; reflexivity. Qed.
-Lemma refuted_f6 : refutes w_f6. Proof. split; [|split]; [vm_compute; reflexivity..|]. eexists. split; vm_compute; reflexivity. Qed.
+Definition refutes_b (w : list op) : bool :=
+  safe (removelast w) && negb (safe w) &&
+  match run init w with Some s => negb (inv_all s) | None => false end.
+
+Lemma refutes_b_spec w : refutes_b w = true -> refutes w.
+Proof.
+  unfold refutes_b, refutes. intros H. apply andb_prop in H as [H H3]. apply andb_prop in H as [H1 H2].
+  split; [exact H1|]. split; [destruct (safe w); [discriminate|reflexivity]|].
+  destruct (run init w) as [s|]; [|discriminate]. exists s. split; [reflexivity|].
+  destruct (inv_all s); [discriminate|reflexivity].
+Qed.
+
+Lemma refuted_f2 : refutes w_f2. Proof. apply refutes_b_spec. vm_compute. reflexivity. Qed.
+Lemma refuted_f3 : refutes w_f3. Proof. apply refutes_b_spec. vm_compute. reflexivity. Qed.
+Lemma refuted_f5 : refutes w_f5. Proof. apply refutes_b_spec. vm_compute. reflexivity. Qed.
+Lemma refuted_f6 : refutes w_f6. Proof. apply refutes_b_spec. vm_compute. reflexivity. Qed.
+
+Lemma f2_double_decrement :
+  exists s, run init w_f2b = Some s /\ inv_stat s = false /\ on_count (k0 (stat_ s)) = 0 /\ length (live s) = 1%nat.
+Proof. eexists. split; [vm_compute; reflexivity|]. vm_compute. auto. Qed.
 
 Theorem full_statement_refuted : ~ (forall ops s, run init ops = Some s -> inv_all s = true).
 Proof.
